@@ -300,6 +300,13 @@ func (e *Enc) wrap(fr *Frame, exact T, t types.Type, at ssa.Instruction, alt str
 	}
 	exact = e.s.Define("x:"+valName(at), exact)
 	in := inRange(exact, r)
+	if bo, ok := at.(*ssa.BinOp); ok && !at.Pos().IsValid() {
+		if phi, ok := bo.X.(*ssa.Phi); ok && phi.Comment == "rangeindex" {
+			// compiler-synthesised range index increment: bounded by the length of the ranged value
+			e.s.Assume(Imp(fr.curReach, in))
+			return exact
+		}
+	}
 	if e.fc != nil && e.fc.NoWrap {
 		anchor := e.srcTextOr(at.Pos(), alt)
 		e.addObligation("nowrap", anchor, fr.curReach, in, "result of "+anchor+" fits its type "+t.String())
@@ -547,7 +554,7 @@ func (e *Enc) floatOp(name, ret string, args ...T) T {
 func (e *Enc) eqValLoose(a, b Val, ta, tb types.Type) T {
 	if ia, ok := a.(*IfaceV); ok {
 		if ib, ok := b.(*IfaceV); ok {
-			return And(Eq(ia.Tag, ib.Tag), Eq(ia.Data, ib.Data))
+			return ifaceEq(ia, ib)
 		}
 		// comparing with nil constant
 		return Eq(ia.Tag, IntLit(0))
@@ -557,6 +564,12 @@ func (e *Enc) eqValLoose(a, b Val, ta, tb types.Type) T {
 	}
 	if sa, ok := a.(*SliceV); ok {
 		if sb, ok := b.(*SliceV); ok {
+			if sb.Base.S == "0" {
+				return Eq(sa.Base, IntLit(0))
+			}
+			if sa.Base.S == "0" {
+				return Eq(sb.Base, IntLit(0))
+			}
 			// contract-level comparison of two slice headers
 			return And(Eq(sa.Base, sb.Base), Eq(sa.Off, sb.Off), Eq(sa.Len, sb.Len))
 		}
